@@ -19,7 +19,7 @@
 //                           each record's contribution according to the dispatch table (`contrib`); cell of the last FORMULA record
 //   model(list, stream)     which substream (stream[lbPlyPos..]) is stored under which sheet name
 //
-// Clauses: C20.filepass_is_password_error (+ weak form filepass_nonzero_type_.., converse password_only_if_filepass),
+// Clauses: C20.filepass_is_password_error (FILEPASS of any encryption type and any length), converse password_only_if_filepass,
 //   C16.sheets_in_boundsheet_order, sheet_positions_and_names, encoding_and_biff_in_force, date1904_flag, one_entry_per_sheet_name,
 //   sheet_substream_at_boundsheet_position, stored_under_the_boundsheet_name, C10/C16.xf_formats_resolved (+ format/xf_records_collected),
 //   C02.sst_wired, dispatch_cells (+ one labelled assertion per record id: dispatch_number, _rk, _mulrk, _label, _labelsst, _boolerr,
@@ -412,14 +412,6 @@ pub open spec fn fp(rs: Seq<RecV>) -> bool
 {
     if rs.len() == 0 { false } else if rs[0].typ == 0x002F { true } else if before_filepass_ok(rs[0]) { fp(rs.skip(1)) } else { false }
 }
-/// weak form of `fp` (kept so that every OTHER break of the FILEPASS handling is still caught while finding xlswb/C20 is open):
-/// the FILEPASS record at the legal position has a non-zero first 16-bit field (BIFF8: wEncryptionType 1 = RC4 / CryptoAPI; BIFF5: key != 0)
-pub open spec fn fp_nonzero(rs: Seq<RecV>) -> bool
-    decreases rs.len()
-{
-    if rs.len() == 0 { false } else if rs[0].typ == 0x002F { rs[0].data.len() >= 2 && le16(rs[0].data) != 0 }
-    else if before_filepass_ok(rs[0]) { fp_nonzero(rs.skip(1)) } else { false }
-}
 /// a FILEPASS record occurs somewhere
 pub open spec fn any_fp(rs: Seq<RecV>) -> bool { exists|i: int| 0 <= i < rs.len() && (#[trigger] rs[i]).typ == 0x002F }
 
@@ -586,8 +578,6 @@ let stream = (match \g<1> { Ok(__v) => Ok(__v), Err(_) => \g<2> })?;
     ensures
         //# C20.filepass_is_password_error
         wb_stream(__p_cfb, __p_reader) matches Some(s) && fp(recs(s)) && codepage_known(old(self).options.force_codepage) ==> res matches Err(XlsError::Password),
-        //# C20.filepass_nonzero_type_is_password_error
-        wb_stream(__p_cfb, __p_reader) matches Some(s) && fp_nonzero(recs(s)) && codepage_known(old(self).options.force_codepage) ==> res matches Err(XlsError::Password),
         //# C20.password_only_if_filepass
         res matches Err(XlsError::Password) ==> wb_stream(__p_cfb, __p_reader) matches Some(s) && any_fp(recs(s)),
         //# C16.workbook_stream_missing_is_error
@@ -627,8 +617,6 @@ let stream = (match \g<1> { Ok(__v) => Ok(__v), Err(_) => \g<2> })?;
                     recs(s0) == done + recs(__it0.s()),
                     //# C20.filepass_is_password_error
                     fp(recs(s0)) ==> fp(recs(__it0.s())),
-                    //# C20.filepass_nonzero_type_is_password_error
-                    fp_nonzero(recs(s0)) ==> fp_nonzero(recs(__it0.s())),
                 invariant
                     cur == __it0.s(),
                     wb_stream(__p_cfb, __p_reader) == Some(s0),
@@ -650,7 +638,7 @@ let stream = (match \g<1> { Ok(__v) => Ok(__v), Err(_) => \g<2> })?;
                 ensures
                     //# C16.globals_records_until_eof
                     recs(s0) == done,
-                    !fp(recs(s0)), !fp_nonzero(recs(s0)),
+                    !fp(recs(s0)),
                 decreases __it0.s().len(),
 //@@ after /let mut r = record\?;/
                 broadcast use axiom_from_cfb;
@@ -721,7 +709,7 @@ let fmla_sheet_names = { let mut __out: Vec<String> = Vec::new();
 //@@ loop 1 it
                 invariant
                     it.seq() == names0,
-                    wb_stream(__p_cfb, __p_reader) == Some(s0), !fp(recs(s0)), !fp_nonzero(recs(s0)), s0 == stream@,
+                    wb_stream(__p_cfb, __p_reader) == Some(s0), !fp(recs(s0)), s0 == stream@,
                     cc == (CCtx { formats: self.formats@, is_1904: self.is_1904, strings: strings@, enc: encoding, biff: biff }),
                     fc == (FCtx { names: sviews(fmla_sheet_names@), dn: defined_names@, xtis: xtis@, enc: encoding }),
                     sheets_dom(sheets@, names0.take(it.index@ as int), s0),
@@ -747,7 +735,7 @@ let fmla_sheet_names = { let mut __out: Vec<String> = Vec::new();
                     recs(sub) == sdone + recs(__it2.s()),
                 invariant
                     scur == __it2.s(),
-                    wb_stream(__p_cfb, __p_reader) == Some(s0), !fp(recs(s0)), !fp_nonzero(recs(s0)),
+                    wb_stream(__p_cfb, __p_reader) == Some(s0), !fp(recs(s0)),
                     cc == (CCtx { formats: self.formats@, is_1904: self.is_1904, strings: strings@, enc: encoding, biff: biff }),
                     fc == (FCtx { names: sviews(fmla_sheet_names@), dn: defined_names@, xtis: xtis@, enc: encoding }),
                     //# C17.merge_regions_appended
